@@ -136,7 +136,7 @@ def main(argv=None):
     units = [u() for u in pinfo.get('units', [])]
     if args.only:
         units = [u for u in units if args.only in u.name]
-    budget = int(os.environ.get('PYVC_BUDGET_S', pinfo.get('budget_s', 600 if tier == 'quick' else 3000)))
+    budget = int(os.environ.get('PYVC_BUDGET_S', pinfo.get('budget_s', 2400 if tier == 'quick' else 6000)))
     tasks = []
     bounded_only = [u for u in units if u.kind == 'B']
     units = [u for u in units if u.kind != 'B']
